@@ -638,6 +638,36 @@ impl<'a, 'src: 'a> Compiler<'a, 'src> {
     }
   }
 
+  /// retrieve a symbol of the global module whatever the program has
+  /// declared under the same name
+  fn global_get(&mut self, name: &Token<'src>) {
+    if self.is_global(name.str()) {
+      // this module already holds the global symbol
+      self.variable_get(name)
+    } else {
+      let name_slot = self.identifier_constant(name.str());
+      self.emit_byte(SymbolicByteCode::LoadGlobal(name_slot), name.end())
+    }
+  }
+
+  /// does this name currently refer to this module's copy of a global symbol
+  fn is_global(&self, name: &str) -> bool {
+    if self.locals.iter().any(|local| name == local.symbol.name()) {
+      return false;
+    }
+
+    if let Some(module_table) = self.module_table {
+      return module_table
+        .get(name)
+        .is_some_and(|symbol| symbol.state() == SymbolState::GlobalInitialized);
+    }
+
+    match self.enclosing {
+      Some(parent_ptr) => unsafe { parent_ptr.as_ref() }.is_global(name),
+      None => false,
+    }
+  }
+
   fn variable_set(&mut self, name: &Token<'src>) {
     match self.resolve_local(name.str()) {
       Some((local, state)) => match state {
@@ -1231,7 +1261,7 @@ impl<'a, 'src: 'a> Compiler<'a, 'src> {
       class_attributes.has_explicit_super_class = true;
       self.variable_get(&super_class.type_ref.name);
     } else {
-      self.variable_get(&Token::new(
+      self.global_get(&Token::new(
         TokenKind::Identifier,
         Lexeme::Slice(OBJECT),
         class.name.start(),
